@@ -18,6 +18,7 @@ import (
 	"os"
 	"path/filepath"
 	"strings"
+	"time"
 
 	"verifharness/gal"
 )
@@ -36,6 +37,17 @@ func main() {
 		fmt.Fprintln(os.Stderr, "need -out")
 		os.Exit(2)
 	}
+	// a hanging implementation must not hang the check: report and stop
+	limit := 150 * time.Second
+	if thorough() {
+		limit = 25 * time.Minute
+	}
+	go func() {
+		time.Sleep(limit)
+		fmtViolation("harness-watchdog/implementation-call-did-not-return", map[string]any{"stage": *stage, "limit_s": limit.Seconds()})
+		os.Stdout.Sync()
+		os.Exit(0)
+	}()
 	w := &gal.Writer{Dir: *outDir, Require: "From Apko Require Import Corr.C18.", Type: "c18case", Check: "check_c18", Shard: 400}
 	r := gal.NewRand(*seed)
 	switch *stage {
